@@ -228,6 +228,11 @@ def _table_check(prop, fam, tier, seed, replay, work, known, t0):
         print("VIOLATION property=%s replay=%s clauses=%s impl=%s last_op=%s events=%d" % (prop, rp, ",".join(sig["clauses"]), sig["impl"], sig["last_op"], len(sig["events"])), flush=True)
         rc = 1
 
+    inadequate = [m for sysm in bundle.b["systems"] for m in (sysm.get("adequacy") or [])]
+    if inadequate:
+        if rc == 0:
+            raise Infra("exploration inadequate (non-deterministic implementation or fingerprint too coarse), no reproducible violation:\n" + inadequate[0][:2500])
+        log("note: %d adequacy failures during exploration (the violations above were reproduced on fresh objects): %s" % (len(inadequate), inadequate[0][:300]))
     counts = bundle.counts()
     cov = dict(
         states=res["distinct"] + sum(d["states"] for d in design_stats),
